@@ -792,6 +792,7 @@ type c20Scenario struct {
 	Inputs   []string // input files (default: all task sources)
 	Extra    cliTree  // files created by Prep (links), as the user sees them before the run
 	AliasDst []string // other names of a destination (links)
+	Mime     string   // --type given: the mimetype of every task
 }
 
 func (s *c20Scenario) cmdline() string {
@@ -839,6 +840,25 @@ func (s *c20Scenario) dsts() map[string]bool {
 	return d
 }
 
+// c20Refused: the destination is one of the sources and its backup name is taken — the task is refused (fix 44ee05b).
+func c20Refused(t c20Task, tree cliTree) bool {
+	if t.Dst == "" {
+		return false
+	}
+	if _, ok := tree[t.Dst]; !ok {
+		return false
+	}
+	if _, ok := tree[t.Dst+".bak"]; !ok {
+		return false
+	}
+	for _, s := range t.Srcs {
+		if s == t.Dst {
+			return true
+		}
+	}
+	return false
+}
+
 // c20Intended is the Go-side statement of "the complete new output" of every destination: the real library applied
 // to the original bytes of the sources (joined with the separator), task after task. Independent of the model
 // and of what the command actually wrote.
@@ -846,7 +866,7 @@ func c20Intended(sc *c20Scenario) cliTree {
 	tree := sc.orig().clone()
 	final := cliTree{}
 	for _, t := range sc.Tasks {
-		if t.Dst == "" || t.Skip || (t.Sync && t.Srcs[0] == t.Dst) {
+		if t.Dst == "" || t.Skip || (t.Sync && t.Srcs[0] == t.Dst) || c20Refused(t, tree) {
 			continue
 		}
 		var parts [][]byte
@@ -861,7 +881,9 @@ func c20Intended(sc *c20Scenario) cliTree {
 		out := in
 		if !t.Sync {
 			mt := cliMime(t.Srcs[0])
-			if t.Srcs[0] == "" {
+			if sc.Mime != "" {
+				mt = sc.Mime
+			} else if t.Srcs[0] == "" {
 				mt = cliExtMap[strings.TrimPrefix(filepath.Ext(t.Dst), ".")]
 			}
 			out, _ = cliLib(mt, in)
@@ -1080,6 +1102,15 @@ func c20ErrorScenarios(rng *h.RNG) []c20Scenario {
 			Tasks: []c20Task{{Srcs: []string{"a.js"}, Dst: "o/out.js", Root: "."}}, Seq: true, Preserve: true, Lexical: true},
 		{Name: "minifier-error-bundle-onto-input", Tree: cliTree{"a.js": good, "b.js": bad}, Args: []string{"-b", "-o", "a.js", "a.js", "b.js"},
 			Tasks: []c20Task{{Srcs: []string{"a.js", "b.js"}, Dst: "a.js", Root: ".", Sep: ";\n"}}, Seq: true, Preserve: true, Lexical: true},
+		// regressions of K-C20-1 / K-C20-2 / K-C19-1 (fixed by 3823c65, 44ee05b)
+		{Name: "regress-bak-input", Tree: cliTree{"a.css.bak": css}, Args: []string{"--type=css", "-o", "a.css", "a.css.bak"},
+			Tasks: []c20Task{{Srcs: []string{"a.css.bak"}, Dst: "a.css", Root: "."}}, Seq: true, Preserve: true, Lexical: true, Mime: "text/css"},
+		{Name: "regress-bak-input-overwrite", Tree: cliTree{"a.css.bak": css, "a.css": []byte("old { }")}, Args: []string{"--type=css", "-o", "a.css", "a.css.bak"},
+			Tasks: []c20Task{{Srcs: []string{"a.css.bak"}, Dst: "a.css", Root: "."}}, Seq: true, Preserve: true, Lexical: true, Mime: "text/css"},
+		{Name: "regress-bak-exists", Tree: cliTree{"a.css": css, "a.css.bak": []byte("PRECIOUS\n")}, Args: []string{"-o", "a.css", "a.css"},
+			Tasks: []c20Task{{Srcs: []string{"a.css"}, Dst: "a.css", Root: "."}}, Seq: true, Preserve: true, Lexical: true},
+		{Name: "regress-bundle-bak-input", Tree: cliTree{"a.css": css, "a.css.bak": []byte("b { color : blue ; }")}, Args: []string{"--type=css", "-b", "-o", "a.css", "a.css", "a.css.bak"},
+			Tasks: []c20Task{{Srcs: []string{"a.css", "a.css.bak"}, Dst: "a.css", Root: "."}}, Seq: true, Preserve: true, Lexical: true, Mime: "text/css"},
 		{Name: "write-error-inplace", Tree: cliTree{"a.css": css}, Args: []string{"-o", "a.css", "a.css"},
 			Tasks: []c20Task{{Srcs: []string{"a.css"}, Dst: "a.css", Root: "."}}, Seq: true, Preserve: true, Lexical: true,
 			Inject: []string{"write:error=ENOSPC"}, WriteErr: true},
@@ -1226,6 +1257,12 @@ func (r *c20Runner) reference(st *h.Stage, sc *c20Scenario, run *cliRun) (*cliRu
 		r.addFail(h.Finding{Stage: st.Name, Kind: "fail", What: "after the complete run: " + why, Input: key, Config: "tree before: " + treeStr(sc.Tree), Impl: "tree after: " + treeStr(run.Tree)})
 	}
 	if !sc.Lexical {
+		// regression of K-C19-4 (fixed by 3823c65): no backup is left behind, whatever the spelling of the same file
+		for p := range run.Tree {
+			if strings.HasSuffix(p, ".bak") {
+				r.addFail(h.Finding{Stage: st.Name, Kind: "fail", What: "a file minified onto itself (differently spelled / linked) leaves a backup behind: " + p, Input: key, Impl: "tree after: " + treeStr(run.Tree)})
+			}
+		}
 		return run, nil
 	}
 	// ---- model side: tasks one after the other on the evolving model tree ----
@@ -1306,7 +1343,9 @@ func (r *c20Runner) compareWithModel(st *h.Stage, sc *c20Scenario, run *cliRun, 
 			outB = in
 		} else {
 			mt := cliMime(t.Srcs[0])
-			if t.Srcs[0] == "" {
+			if sc.Mime != "" {
+				mt = sc.Mime
+			} else if t.Srcs[0] == "" {
 				mt = cliExtMap[strings.TrimPrefix(filepath.Ext(t.Dst), ".")]
 			}
 			outB, libOk = cliLib(mt, in)
@@ -1315,6 +1354,11 @@ func (r *c20Runner) compareWithModel(st *h.Stage, sc *c20Scenario, run *cliRun, 
 			fails++
 		}
 		noop := t.Skip || (t.Sync && t.Srcs[0] == t.Dst)
+		refused := !noop && c20Refused(t, tree)
+		if refused {
+			fails++
+			noop = true
+		}
 		dirs := make([]string, 0, len(dirSet))
 		for d := range dirSet {
 			dirs = append(dirs, d)
@@ -1372,6 +1416,9 @@ func (r *c20Runner) compareWithModel(st *h.Stage, sc *c20Scenario, run *cliRun, 
 			Input: key, Config: "tree before: " + treeStr(sc.Tree), Impl: "tree after: " + treeStr(run.Tree)})
 	}
 	wantExit := 0
+	if sc.WriteErr {
+		wantExit = 1 // a failed write is reported (fix ad69de8)
+	}
 	if fails > 0 {
 		wantExit = 1
 	}
@@ -1683,6 +1730,14 @@ func (r *c20Runner) killSweep(st *h.Stage, sc *c20Scenario, ref *cliRun, contrac
 			for _, s := range t.Srcs {
 				part[s+".bak"] = true // aliases: the backup is named after the source
 			}
+		}
+		for p := range sc.Tree {
+			if strings.HasSuffix(p, ".bak") {
+				delete(part, p) // an existing *.bak is never a backup of this run
+			}
+		}
+		for _, t := range sc.Tasks {
+			part[t.Dst] = true
 		}
 		for p, v := range sc.Tree {
 			if !part[p] {
@@ -1997,7 +2052,8 @@ func init() {
 					want = true
 				case shape == "bundle-onto-last" && size == 4096 && parts[1] == "js":
 					want = true
-				case shape == "write-error-inplace", shape == "minifier-error-inplace", shape == "alias-absolute-dst", shape == "alias-symlink-src":
+				case shape == "write-error-inplace", shape == "minifier-error-inplace", shape == "alias-absolute-dst", shape == "alias-symlink-src",
+					shape == "regress-bak-input", shape == "regress-bak-input-overwrite", shape == "regress-bak-exists", shape == "regress-bundle-bak-input":
 					want = true
 				case shape == "dir-inplace-par" && size == 4096 && parts[1] == "css":
 					want = true
